@@ -11,7 +11,7 @@ from vf.zoo import vec
 
 ID = "C03"
 LEVEL = "exploration"
-BUDGET = {"quick": 640, "thorough": 12800}
+BUDGET = {"quick": 1920, "thorough": 19200}
 MIN_NONTRIVIAL = {"quick": 50, "thorough": 500}
 RULE = (
     "Hypothesis draws integrator x compatible system x metric x state x step size 0.02-0.3 x 1-3 steps (solver "
